@@ -63,6 +63,9 @@ def build_packs(binary, base, tier):
     # C: lzma, mixed raw and compressed
     opsc = [{"cid": 200000 + j, "size": 600000 + 17 * j, "cls": "low" if j % 3 else "rand", "hint": "yes" if j % 3 else "no"} for j in range(12)]
     packs.append({"kind": "content", "id": "packC", "dir": os.path.join(base, "packC"), "comp": "lzma", "level": 0, "ops": opsc, "read": False, "quiet_adds": True})
+    # D: more big clusters than cache slots: a cluster can be evicted, and dropped by everybody, while the pool still decodes it
+    opsd = [{"cid": 300000 + j, "size": 2 * MIB + 100000 + j, "cls": "low", "hint": "yes"} for j in range(48 if tier == "quick" else 120)]
+    packs.append({"kind": "content", "id": "packD", "dir": os.path.join(base, "packD"), "comp": "zstd", "level": 1, "ops": opsd, "read": False, "quiet_adds": True})
     runs = C.run_scenarios(binary, packs, "C07_packs", timeout=900)
     out = []
     for p in packs:
@@ -72,6 +75,23 @@ def build_packs(binary, base, tier):
             raise C.ToolError("cannot create %s for C07: %s" % (p["id"], fin))
         out.append({"file": fin["file"], "ops": p["ops"], "name": p["id"]})
     return out
+
+
+def make_evict(rng, k, pack, nreaders):
+    """one thread asks for every content and drops it at once (decoders start, clusters are evicted while still being
+    decoded and nobody holds them), the other threads read and verify contents meanwhile"""
+    ops = pack["ops"]
+
+    def rd(i, mode):
+        o = ops[i]
+        return {"idx": i, "cid": o["cid"], "size": o["size"], "cls": o["cls"], "off": 0, "len": o["size"] if mode != "touch" else 0, "mode": mode}
+    threads = [[rd(i, "touch") for i in range(len(ops))] * 2]
+    for t in range(nreaders):
+        idxs = list(range(len(ops)))
+        rng.shuffle(idxs)
+        threads.append([rd(i, rng.choice(["stream", "slice"])) for i in idxs[:12]])
+    return {"kind": "conc", "id": "q%d" % k, "file": pack["file"], "seed": rng.randrange(1, 1 << 40), "delay_max_us": 0, "trace_hooks": False,
+            "threads": threads, "pack": pack["name"], "nthreads": nreaders + 1, "barrier": False, "rounds": 3}
 
 
 def make_conc(rng, k, pack, nthreads, reads_per_thread, delay, trace, stampede=False, rounds=1):
@@ -154,7 +174,7 @@ def run(prop, tier):
     nseeds = 200 if tier == "quick" else 5000
     for i in range(nseeds):
         k += 1
-        pack = packs[i % 3] if i % 10 else packs[1]
+        pack = packs[i % 3] if i % 10 else packs[1]      # (pack D is used by the eviction runs only)
         nt = [2, 8, 16, 32][i % 4]
         rp = 30 if pack["name"] == "packA" else 3
         if i % 3 == 1:
@@ -162,6 +182,9 @@ def run(prop, tier):
             scns.append(make_conc(rng, k, packs[1], [4, 8, 16][(i // 3) % 3], 14, 0, False, stampede=True, rounds=4))
         else:
             scns.append(make_conc(rng, k, pack, nt, rp, rng.choice([0, 0, 20, 200]), False))
+    for i in range(3 if tier == "quick" else 30):
+        k += 1
+        scns.append(make_evict(rng, k, packs[3], 4))
     events, n_ok = [], 0
     nontrivial = set()
     hangs = 0
